@@ -276,15 +276,15 @@ def partitions(tier, seed):
                     continue
                 if not q and ln == 1 and h in ("pkg", "text"):
                     P.append(dict(name="rt-text/%s/%s/len%d" % (shape, h, ln), harness="h_roundtrip",
-                                  params=dict(shape=shape, hole=[h], lens=[ln], as_text=True), budget=1800, reach=[],
+                                  params=dict(shape=shape, hole=[h], lens=[ln], as_text=True), budget=900, reach=[],
                                   bounds="template %s given as ONE str, symbolic %s of %d chars" % (shape, h, ln)))
                 P.append(dict(name="rt/%s/%s/len%d" % (shape, h, ln), harness="h_roundtrip", params=dict(shape=shape, hole=[h], lens=[ln]),
-                              budget=90 if q else 1200, reach=[], bounds="template %s, symbolic %s of %d chars" % (shape, h, ln)))
+                              budget=90 if q else 500, reach=[], bounds="template %s, symbolic %s of %d chars" % (shape, h, ln)))
         if not q:
             for a, b in (("pkg", "ver"), ("dist", "urg"), ("comment", "value"), ("text", "name"), ("name", "email"), ("ver", "text")):
                 if a in uses[shape] and b in uses[shape]:
                     for ln in (1, 2):
                         P.append(dict(name="rt/%s/%s+%s/len%d" % (shape, a, b, ln), harness="h_roundtrip",
-                                      params=dict(shape=shape, hole=[a, b], lens=[ln, ln]), budget=1800, reach=[],
+                                      params=dict(shape=shape, hole=[a, b], lens=[ln, ln]), budget=700, reach=[],
                                       bounds="template %s, symbolic %s and %s of %d chars" % (shape, a, b, ln)))
     return P
